@@ -116,3 +116,47 @@ def register(reg):
             ],
         }},
     )
+    _register_parse_accept(reg)
+
+
+def _replay_parse_accept(reg, c, inputs):
+    """the item list and its options are abstract in the model: replay on the model's text and a corpus of headers"""
+    from pyvc import runtime
+    fn = runtime.resolve_real("werkzeug/http.py:parse_accept_header")
+    nc = runtime.NativeContract(reg, c)
+    corpus = [inputs.get("value"), None, "", "a", "a;q=1", "a;q=0", "a;q=-1", "a;q=-0.5", "a;q=2", "a;q=1.5", "a;q=abc", "a;q=",
+              "a;q=0.5, b;q=-0.1, c", "a;q=1.000, b;q=01", "a; q = 0.3 ", "a;Q=-1", "a;level=1;q=-3", "*/*;q=-0"]
+    for v in corpus:
+        fails = nc.check_call(fn, [v], {}, {"value": v})
+        if fails:
+            return [f"(header text {v!r}) " + f for f in fails]
+    return []
+
+
+def _register_parse_accept(reg):
+    """parse_accept_header: every item it hands to the Accept container has a quality inside [0, 1] (items with an
+    invalid q are skipped) and nothing escapes (C07)"""
+    from pyvc.values import VObj
+    Acc = reg.models["AcceptM"] if "AcceptM" in reg.models else None
+
+    def _accept_ctor(interp, cv, args, kwargs, node):
+        # Accept(values): the container holds exactly these pairs (its ordering by quality / specificity is the
+        # subject of the best_match contracts, where sortedness is a precondition)
+        from pyvc.values import VList
+        vals = interp.need(args[0]) if args else VList([])
+        from pyvc.values import VNone
+        if isinstance(vals, VNone):
+            vals = VList([])
+        return VObj(cv.info, {"__list__": vals})
+    reg.constructors["werkzeug/datastructures/accept.py:Accept"] = _accept_ctor
+    reg.builtin_spec("items_of", lambda it, a, k, n: it.need(a[0]).fields["__list__"], lambda acc: list(acc))
+    reg.contract("werkzeug/http.py:dump_options_header", prop="C17", trusted=True, modifies=[],
+                 params={"header": "Optional[str]", "options": "Dict[str, str]"}, returns="str",
+                 note="value + options -> header text (C06 bounded tier)")
+    reg.contract(
+        "werkzeug/http.py:parse_accept_header", prop="C17,C07", params={"value": "Optional[str]"}, modifies=[],
+        ensures=["forall(0, len(items_of(result)), lambda i: 0 <= items_of(result)[i][1] and items_of(result)[i][1] <= 1)"],
+        raises={}, replay=_replay_parse_accept,
+        loops={0: {"types": {"result": "List[Tuple[str, float]]", "item": "str", "q": "float"},
+                   "inv": ["forall(0, len(result), lambda i: 0 <= result[i][1] and result[i][1] <= 1)"]}},
+    )
